@@ -772,6 +772,11 @@ func (data *Data) CreateShardGroup(database, policy string, timestamp time.Time)
 		// Shard group range is [start, end) so add one to the max time.
 		endTime = time.Unix(0, models.MaxNanoTime+1)
 	}
+	if startTime.Before(time.Unix(0, models.MinNanoTime)) {
+		// Earlier instants cannot be expressed as int64 nanoseconds: the start
+		// would wrap around when the metadata is encoded.
+		startTime = time.Unix(0, models.MinNanoTime).UTC()
+	}
 
 	for i := range rpi.ShardGroups {
 		if rpi.ShardGroups[i].Deleted() {
